@@ -2,7 +2,7 @@ CONSTANTS
   Defects = {}
   MaxLen = 1
   Family = "rangecond"
-  Methods = {"GET", "HEAD"}
+  Methods = {"GET"}
 INIT Init
 NEXT NoNext
 CHECK_DEADLOCK FALSE
